@@ -15,8 +15,8 @@ type (
 	WaitGroup = vrt.WaitGroup
 	Cond      = vrt.Cond
 	Locker    = rs.Locker
-	Map       = rs.Map
-	Pool      = rs.Pool
+	Map       = vrt.Map
+	Pool      = vrt.Pool
 )
 
 func NewCond(l Locker) *Cond { return vrt.NewCond(l) }
@@ -24,4 +24,17 @@ func NewCond(l Locker) *Cond { return vrt.NewCond(l) }
 func OnceFunc(f func()) func() {
 	var o Once
 	return func() { o.Do(f) }
+}
+
+func OnceValue[T any](f func() T) func() T {
+	var o Once
+	var v T
+	return func() T { o.Do(func() { v = f() }); return v }
+}
+
+func OnceValues[T1, T2 any](f func() (T1, T2)) func() (T1, T2) {
+	var o Once
+	var v1 T1
+	var v2 T2
+	return func() (T1, T2) { o.Do(func() { v1, v2 = f() }); return v1, v2 }
 }
